@@ -176,6 +176,42 @@ func replayLoop(in sx.V, pressure bool) (sx.V, sx.V) {
 			}
 		case 6:
 			w.timeoutScan()
+		case 7:
+			// the ticker's probe: the node is chosen by math/rand, which a replay cannot steer; the
+			// round is run and recorded as it happens
+			w.probe(int64(len(w.events)))
+		case 9:
+			t := &topo{}
+			role := map[string]bool{}
+			var order []string
+			for _, n := range sx.Items(f[1]) {
+				x := sx.Items(n)
+				role[string(sx.Bytes(x[0]))] = sx.Int(x[1]) != 0
+				order = append(order, string(sx.Bytes(x[0])))
+			}
+			idx := map[string]int{}
+			for i, a := range order {
+				idx[a] = i
+				t.nodes = append(t.nodes, tnode{addr: a, present: true, slave: role[a], lo: 1, hi: 0})
+			}
+			firstMaster := 0
+			for i := range t.nodes {
+				if !t.nodes[i].slave {
+					firstMaster = i
+					break
+				}
+			}
+			for i := range t.nodes {
+				if t.nodes[i].slave {
+					t.nodes[i].master = firstMaster
+				}
+			}
+			for _, rg := range sx.Items(f[2]) {
+				x := sx.Items(rg)
+				i := idx[string(sx.Bytes(x[2]))]
+				t.nodes[i].lo, t.nodes[i].hi = int(sx.Int(x[0])), int(sx.Int(x[1]))
+			}
+			w.applyTopology(t)
 		case 8:
 			// (8 0 c n) a client reads up to n bytes; (8 1 addr k n) a backend does
 			var p *stepper.Peer
